@@ -159,6 +159,26 @@ def run_case(kind, grid, li, quad, ei, rel):
                     if not abs(v - full[nm][kf]) <= TOL * scale:
                         return f"label {lab} computed alone gives {nm}{key} = {v!r}, inside the multi-label model {full[nm][kf]!r}"
             return None
+        if r == "inverse-impulse":
+            # stock-driven: prescribing the survival column of cohort c times its interval length must
+            # return a unit inflow rate in cohort c (and nothing else)
+            t0, l0 = rel[1], rel[2]
+            dt = dsm.dts(grid)
+            if any(sf_m[(t, t0, labs[l0])] is None for t in range(n)):
+                return "skip"
+            d = {(t, lab): (sf_m[(t, t0, lab)] * dt[t0] if (lab == labs[l0] and t >= t0) else 0.0) for t in range(n) for lab in labs}
+            res = run(d)
+            for (t, lab), v in res["inflow"].items():
+                want = 1.0 if (t == t0 and lab == labs[l0]) else 0.0
+                if not abs(v - want) <= 1e-9:
+                    return f"prescribing survival column {t0} x interval length for label {labs[l0]} gives inflow{(t, lab)} = {v!r}, a unit impulse in cohort {t0} would give {want}"
+            return None
+        if r == "int-driver":
+            # whole-number drivers held in an integer array give the results of the same numbers as floats
+            d = {k: float(round(v)) * 2.0 for k, v in dsm_impl.driver_series("pos" if kind == "inflow" else "hump", n, extra).items()}
+            a = run(d)
+            b = dsm_impl.run_stock(kind, grid, lt, quad, extra, shapes, d, int_dtype=True)
+            return diff(a, b, dsm_impl.scale_of(a, grid))
         if r == "shift":
             d = dsm_impl.driver_series("pos" if kind == "inflow" else "hump", n, extra)
             a = run(d)
@@ -187,6 +207,9 @@ def relations(n, nlab, tier):
     for i, j in itertools.permutations(range(len(gen)), 2):
         if tier == "thorough" or (i + 2 * j) % 3 == 0:
             rels.append(("superpose", list(gen[i]), list(gen[j])))
+    rels.append(("int-driver",))
+    for t in range(n):
+        rels.append(("inverse-impulse", t, (t * 3) % nlab))
     rels.append(("scale", -3.0))
     rels.append(("scale", 2.0 ** -40))
     rels.append(("scale", 2.0 ** 30))
@@ -215,6 +238,8 @@ def run_unit(u):
                 if tier == "thorough" and ei == 2 and qi % 3 != 0:
                     continue
                 for rel in relations(n, nlab, tier):
+                    if rel[0] == "inverse-impulse" and kind == "inflow":
+                        continue
                     oc, f = run_case(kind, grid, li, quad, ei, list(rel))
                     res["evals"] += 1
                     res["nontrivial"] += 0 if oc.startswith("skipped") else 1
